@@ -1,2 +1,16 @@
-(* Properties/C01.v — property theorems for C01 (engine + static inspectors); filled in after milestone M1 *)
-Require Import OV.Model.Insp_All.
+(* Properties/C01.v — C01: the inspection verdict depends on the bytes only, never on the chunking.
+   Only the property theorems; proofs are in Proofs/Insp_*.v. *)
+Require Import OV.Base.Bytes OV.Base.Py OV.Base.Insp_Struct OV.Gen.Insp_Consts OV.Model.Insp_Engine OV.Model.Insp_All.
+Require Import OV.Proofs.Insp_Engine OV.Proofs.Insp_FmtOk OV.Proofs.Insp_All.
+Open Scope N_scope.
+
+(* "Whatever an inspector retains for a region of the file is exactly the stream's bytes at that
+   region's offsets": in every state any of the ten inspectors can be driven into by ANY sequence of
+   chunks (empty ones, chunks after an exception or after finish included) with finish() at any time,
+   each region's data is the slice of the stream presented so far at the region's current offset, and
+   is never longer than the region's length. *)
+Theorem C01_retained_is_stream_slice : forall st i n r,
+  ireach st i -> In (n, r) (regions_of i) ->
+  r_data r = bslice (r_off r) (blen (r_data r)) st /\ blen (r_data r) <= r_len r /\ position i = blen st.
+Proof. exact retained_is_stream_slice_all. Qed.
+Print Assumptions C01_retained_is_stream_slice.
